@@ -30,14 +30,22 @@ def message_registry(repo: Repo) -> dict[int, tuple[str, FuncInfo]]:
     for key, val, st in repo.registry("Message", "_types"):
         if not isinstance(key, int):
             raise AnalysisError(f"Message._types key does not fold to an int (line {st.lineno})")
-        if not (isinstance(val, ast.Tuple) and len(val.elts) == 2 and isinstance(val.elts[1], ast.Name)):
+        # a row is a (name, handler) pair: a tuple display or a 2-field record constructor (NamedTuple row)
+        elts = None
+        if isinstance(val, ast.Tuple) and len(val.elts) == 2:
+            elts = list(val.elts)
+        elif isinstance(val, ast.Call) and len(val.args) == 2 and not val.keywords:
+            elts = list(val.args)
+        elif isinstance(val, ast.Call) and not val.args and {k.arg for k in val.keywords} == {"name", "handler"}:
+            elts = [next(k.value for k in val.keywords if k.arg == "name"), next(k.value for k in val.keywords if k.arg == "handler")]
+        if elts is None or not isinstance(elts[1], ast.Name):
             raise AnalysisError(f"Message._types value is not (name, handler) (line {st.lineno})")
-        h = ci.methods.get(val.elts[1].id)
+        h = ci.methods.get(elts[1].id)
         if h is None:
-            raise AnalysisError(f"handler {val.elts[1].id} is not defined in Message")
+            raise AnalysisError(f"handler {elts[1].id} is not defined in Message")
         if key in out:
             raise AnalysisError(f"message code {key} registered twice")
-        out[key] = (repo.fold(val.elts[0], ci.module, ci), h)
+        out[key] = (repo.fold(elts[0], ci.module, ci), h)
     return out
 
 
